@@ -592,6 +592,16 @@ class Parser:
         self.expect("{")
         stmts, tail = [], None
         while not self.at("}"):
+            if self.at("#") and self.peek().v == "[" and [t.v for t in self.toks[self.i + 2:self.i + 9]] == ["cfg", "(", "feature", "=", "verif", ")", "]"]:
+                # `#[cfg(feature = "verif")] stmt;` — a verification hook: dropped
+                line = self.t.line
+                self.i += 9
+                self.expr()
+                self.eat(";")
+                self.dropped.append(f"#[cfg(feature = \"verif\")] statement (line {line})")
+                continue
+            if self.at("#") and self.peek().v == "[" and self.toks[self.i + 2].v == "cfg":
+                self.fail("`#[cfg(...)]` on a statement")
             self.skip_attrs()
             if self.eat(";"):
                 continue
@@ -722,8 +732,19 @@ class Parser:
         if v == "move":
             self.i += 1
             return self.closure()
-        if v in ("for", "while", "loop"):
-            self.fail(f"`{v}` loop (only iterator chains are in the subset)")
+        if v == "loop":
+            self.i += 1
+            return ("loop", self.block())
+        if v == "while":
+            self.i += 1
+            c = self.cond()
+            return ("while", c, self.block())
+        if v == "for":
+            self.i += 1
+            pat = self.pattern()
+            self.expect("in", "id")
+            it = self.expr(no_struct=True)
+            return ("for", pat, it, self.block())
         if v in ("unsafe", "async", "break", "continue", "yield", "await"):
             self.fail(f"`{v}`")
         # path
@@ -792,6 +813,19 @@ class Parser:
             tmpl = next((t.v for t in self.toks[open_i:close_i] if t.k == "str"), "")
             self.i = close_i + 1
             return ("format", tmpl)
+        if name == "vec":
+            self.i = open_i + 1
+            elems = []
+            while self.i < close_i:
+                elems.append(self.expr())
+                if self.at(";"):
+                    self.fail("vec![x; n]")
+                if not self.eat(","):
+                    break
+            if self.i != close_i:
+                self.fail("vec! with unexpected contents")
+            self.i += 1
+            return ("vec", elems)
         if name == "matches":
             self.i = open_i + 1
             e = self.expr()
@@ -1043,6 +1077,8 @@ class Area:
             r = "Bool"
         elif n in ("str", "String"):
             r = "String"
+        elif n in FnTr.ATOMIC_TY:
+            r = "Nat"
         elif n in ("Option",):
             r = "Option " + self.lean_ty(args[0], self_ty, False)
         elif n in ("Vec", "Slice", "Array", "VecDeque"):
@@ -1071,6 +1107,7 @@ class Area:
                     decls.append(("enum", parse_enum(toks, i, "<spec foreign_rust>"), "spec"))
                 else:
                     decls.append(("struct", parse_struct(toks, i, "<spec foreign_rust>"), "spec"))
+        n_foreign = len(decls)
         for tdecl in spec.get("source_types", []):
             toks, it = self.load(tdecl.get("file", spec["file"]))
             name = tdecl["name"]
@@ -1088,6 +1125,8 @@ class Area:
                     raise Unsupported(f"struct `{name}`: fields {missing} named in the spec no longer exist")
                 d["all_fields"] = [x[0] for x in d["fields"]]
                 d["fields"] = [x for x in d["fields"] if x[0] in only]
+        if spec.get("foreign_after_source"):
+            decls = decls[n_foreign:] + decls[:n_foreign]
         for kind, d, _ in decls:
             (self.enums if kind == "enum" else self.structs)[d["name"]] = d
         tp = self.tparams()
@@ -1156,7 +1195,7 @@ class Area:
                     raise Unsupported(f"function `{label}` not found in the source")
                 fn = parse_fn(toks, it.fns[key], label)
                 fn["lean_name"] = lean_name
-                fn["self_ty"] = key[0].split(" for ")[-1] if key[0] else None
+                fn["self_ty"] = f.get("self_ty") or (key[0].split(" for ")[-1] if key[0] else None)
                 fn["spec"] = f
                 self.fninfo[key] = fn
                 self.fninfo[(None if key[0] is None else fn["self_ty"], key[1])] = fn
@@ -1166,6 +1205,8 @@ class Area:
         for label, fn, err in parsed:
             rec = {"function": label, "lean": f"Generated.{spec['area']}.{fn['lean_name']}", "ok": False,
                    "theorem": fn["spec"].get("theorem")}
+            if fn["spec"].get("properties"):
+                rec["properties"] = fn["spec"]["properties"]
             if err is None:
                 try:
                     tr = FnTr(self, fn, fn["self_ty"], fn["spec"])
@@ -1240,7 +1281,30 @@ class FnTr:
             sself = a.lean_ty(T(self.self_ty))
             lret = sself if fn["ret"] is None else f"{sself} × {lret}"
         extra = a.spec.get("fn_params", "")
-        body = self.stk(fn["body"][1], fn["body"][2], env, self.ret_k)
+        mode = self.fspec.get("mode")
+        if self.fspec.get("atomic_self") and self.self_kind == "ref":
+            self.self_kind = "mut"
+            sself = a.lean_ty(T(self.self_ty))
+            lret = sself if fn["ret"] is None else f"{sself} × {lret}"
+        self.cas = False
+        if mode in ("if_condition", "closure_arg"):
+            return self.emit_fragment(mode, params, extra)
+        stmts, tail = fn["body"][1], fn["body"][2]
+        if mode == "tail_if_condition":
+            last = tail if tail is not None else (stmts[-1][1] if stmts and stmts[-1][0] == "expr" else None)
+            if last is None or last[0] != "if" or last[3] is not None or last[1][0] == "let":
+                self.fail("mode tail_if_condition: the body does not end in an `if` without `else`")
+            stmts = stmts if tail is not None else stmts[:-1]
+            self.dropped.append("the body of the final `if` (only its condition is translated)")
+            cond = last[1]
+            sself = a.lean_ty(T(self.self_ty))
+            lret = f"{sself} × Bool"
+            body = self.stk(stmts, None, env, lambda env2, _v: f"({env2['self'][0]}, {self.ex(cond, env2).lean})")
+        else:
+            body = self.stk(stmts, tail, env, self.ret_k)
+        if self.cas:
+            base = a.lean_ty(ret_ty, self.self_ty) if fn["ret"] is not None else "Unit"
+            lret = f"Rust.CasStep {self.par(base)}"
         self.int_note()
         hdr = [f"/-- `{fn['name']}` — translated from line {fn.get('line', '?')}; integers: {self.int_note()} -/"]
         sig = f"def {fn['lean_name']} {extra} {' '.join(params)} : {lret} :="
@@ -1255,9 +1319,46 @@ class FnTr:
             return ("ty", ty[1], [self.resolve_ty(x) for x in ty[2]])
         return ("tuple", [self.resolve_ty(x) for x in ty[1]])
 
+    def emit_fragment(self, mode, params, extra):
+        """translate only a fragment of the function (declared in the target spec)"""
+        fn, a = self.fn, self.a
+        env = {}
+        ps = []
+        for name, tys in self.fspec.get("bind", []):
+            ty = self.tyspec(tys)
+            env[name] = (lean_ident(name), ty)
+            ps.append(f"({lean_ident(name)} : {a.lean_ty(ty)})")
+        if mode == "if_condition":
+            ifs = [n for n in walk(fn["body"]) if n and n[0] == "if" and n[1][0] != "let"]
+            k = self.fspec.get("index", 0)
+            if k >= len(ifs):
+                self.fail(f"mode if_condition: the body has no `if` number {k}")
+            v = self.ex(ifs[k][1], env)
+            self.dropped.append(f"everything but the condition of `if` number {k} of the body")
+            body, lret = v.lean, "Bool"
+        else:
+            m = self.fspec["method"]
+            calls = [n for n in walk(fn["body"]) if n and n[0] == "mcall" and n[2] == m]
+            if len(calls) != 1:
+                self.fail(f"mode closure_arg: expected exactly one `.{m}(…)` call, found {len(calls)}")
+            cl = [x for x in calls[0][3] if x[0] == "closure"]
+            if len(cl) != 1:
+                self.fail(f"mode closure_arg: `.{m}(…)` has no closure argument")
+            ptys = [self.tyspec(t) for t in self.fspec.get("closure_params", [])]
+            txt = self.closure(cl[0], ptys, env)
+            rt = self.tyspec(self.fspec.get("closure_ret"))
+            self.dropped.append(f"everything but the closure passed to `.{m}(…)`")
+            body = txt
+            lret = " → ".join([a.lean_ty(t) for t in ptys] + [a.lean_ty(rt)])
+        hdr = [f"/-- fragment of `{fn['name']}` ({mode}) — translated from line {fn.get('line', '?')}; integers: {self.int_note()} -/"]
+        sig = f"def {fn['lean_name']} {extra} {' '.join(ps)} : {lret} :="
+        return "\n".join(hdr + [re.sub(r"\s+", " ", sig), ind(body)])
+
     def ret_k(self, env, v):
         """the function's result, given the value of the body / of a `return`"""
         val = v.lean if v is not None else "()"
+        if self.cas:
+            return f".done {self.par(val)}"
         if self.self_kind == "mut":
             s = env["self"][0]
             return s if self.fn["ret"] is None else f"({s}, {val})"
@@ -1266,7 +1367,10 @@ class FnTr:
         return val
 
     # ---- effects -----------------------------------------------------------------------
-    MUTATING = {"retain", "push", "insert", "remove", "clear", "truncate", "sort", "sort_by", "sort_by_key", "dedup",
+    ATOMIC_RMW = {"fetch_or": "Rust.bor {0} {1}", "fetch_and": "Rust.band {0} {1}", "fetch_xor": "Rust.bxor {0} {1}",
+                  "fetch_add": "Rust.wAdd {w} {0} {1}", "fetch_sub": "Rust.wSub {w} {0} {1}", "store": "{1}", "swap": "{1}"}
+    ATOMIC_TY = {"AtomicUsize": "usize", "AtomicU64": "u64", "AtomicU32": "u32", "AtomicU8": "u8", "AtomicU16": "u16"}
+    MUTATING = {"fetch_or", "fetch_and", "fetch_xor", "fetch_add", "fetch_sub", "store", "swap", "retain", "push", "insert", "remove", "clear", "truncate", "sort", "sort_by", "sort_by_key", "dedup",
                 "extend", "pop", "push_back", "pop_front", "swap_remove", "drain", "reverse", "take", "replace", "get_or_insert"}
 
     def is_sibling_mut(self, e):
@@ -1277,7 +1381,7 @@ class FnTr:
 
     def has_effect(self, e):
         for n in walk(e):
-            if n and n[0] in ("return", "assign"):
+            if n and n[0] in ("return", "assign", "loop", "while", "for"):
                 return True
             if n and n[0] == "let" and len(n) == 5 and n[4] is not None:
                 return True
@@ -1398,6 +1502,10 @@ class FnTr:
             if e[1] is None:
                 return self.ret_k(env, None)
             return self.exk(e[1], env, self.ret_k)
+        if t in ("while", "for"):
+            self.fail(f"`{t}` loop (only iterator chains and compare-exchange retry loops are in the subset)")
+        if t == "loop":
+            return self.cas_loop(e[1], env)
         if t in ("paren", "ref", "deref"):
             return self.exk(e[1], env, k)
         if t == "block":
@@ -1441,6 +1549,17 @@ class FnTr:
                     return f"let {env['self'][0]} := {call};\n{k(env, None)}"
                 r = self.fresh()
                 return f"let {r} := {call};\nlet {env['self'][0]} := {r}.1;\n{k(env, Val(r + '.2', self.resolve_ty(fi['ret'])))}"
+            if name in self.ATOMIC_RMW:
+                rv = self.ex(recv, env)
+                at = self.ATOMIC_TY.get(ty_name(rv.ty))
+                if at is None:
+                    self.fail(f"`.{name}()` on a receiver that is not a known atomic integer")
+                w = self.width(T(at), f"`.{name}()`")
+                a0 = self.ex(args[0], env, T(at))
+                old = self.fresh()
+                new = self.ATOMIC_RMW[name].format(self.par(rv.lean), self.par(a0.lean), w=w) if "{w}" in self.ATOMIC_RMW[name] else self.ATOMIC_RMW[name].format(self.par(rv.lean), self.par(a0.lean))
+                inner = self.assign_to(recv, Val(new, rv.ty), env, lambda env2, _v: k(env2, Val(old, T(at))))
+                return f"let {old} : Nat := {rv.lean};\n{inner}"
             if name == "retain":
                 rv = self.ex(recv, env)
                 el = self.elem_ty(rv.ty)
@@ -1455,12 +1574,57 @@ class FnTr:
             self.fail(f"mutating method `.{name}()`")
         self.fail(f"effect (assignment/return) inside a `{t}` expression")
 
+    def cas_loop(self, body, env):
+        """`loop { …; match A.compare_exchange[_weak](cur, new, _, _) { Ok(_) => return v, Err(o) => cur = o } }`
+        is translated as ONE iteration: `.done v` for a `return v` before the exchange, `.cas cur new v` at it."""
+        self.cas = True
+        stmts, tail = body[1], body[2]
+        last = tail if tail is not None else (stmts[-1][1] if stmts and stmts[-1][0] == "expr" else None)
+        pre = stmts if tail is not None else stmts[:-1]
+        ok = last is not None and last[0] == "match" and last[1][0] == "mcall" and last[1][2] in ("compare_exchange", "compare_exchange_weak") and len(last[2]) == 2
+        if not ok:
+            self.fail("`loop` that is not a compare-exchange retry loop")
+        cx = last[1]
+        cur = cx[3][0]
+
+        def fin(env2, _v):
+            at = self.ATOMIC_TY.get(ty_name(self.ex(cx[1], env2).ty))
+            if at is None:
+                self.fail("compare_exchange on a receiver that is not a known atomic integer")
+            c = self.ex(cur, env2, T(at))
+            n = self.ex(cx[3][1], env2, T(at))
+            okv = errok = None
+            for pat, guard, b in last[2]:
+                if pat[0] == "p_ctor" and pat[1] == ["Ok"]:
+                    while b[0] == "block" and not b[1] and b[2] is not None:
+                        b = b[2]
+                    if b[0] == "block" and len(b[1]) >= 1 and b[2] is None and b[1][-1][0] == "expr" and b[1][-1][1][0] == "return":
+                        pre_ok = b[1][:-1]
+                        if any(x[0] != "expr" or x[1][0] != "dropped" for x in pre_ok):
+                            self.fail("statements before `return` in the Ok arm of a compare-exchange loop")
+                        b = b[1][-1][1]
+                    if b[0] != "return" or guard is not None:
+                        self.fail("the Ok arm of a compare-exchange loop must be `return …`")
+                    okv = self.ex(b[1], env2, self.ret_ty).lean if b[1] is not None else "()"
+                elif pat[0] == "p_ctor" and pat[1] == ["Err"] and pat[2] and pat[2][0][0] == "p_bind":
+                    o = pat[2][0][1]
+                    while b[0] == "block" and not b[1] and b[2] is not None:
+                        b = b[2]
+                    if b != ("assign", "=", cur, ("path", [o])):
+                        self.fail("the Err arm of a compare-exchange loop must re-assign the observed value")
+                    errok = True
+            if okv is None or not errok:
+                self.fail("compare-exchange loop without the expected Ok/Err arms")
+            return f".cas {self.par(c.lean)} {self.par(n.lean)} {self.par(okv)}"
+        return self.stk(pre, None, env, fin)
+
     def outer(self, env, env2):
         """after leaving a block: keep outer names only (their Lean names are stable under assignment)"""
         return {n: env2.get(n, v) if env2.get(n, v)[0] == v[0] else v for n, v in env.items()}
 
     def assign_to(self, lhs, rv, env, k):
-        while lhs[0] in ("paren", "deref"):
+        while lhs[0] in ("paren", "deref") or (lhs[0] == "tfield" and lhs[1] == ("path", ["self"]) and lhs[2] == 0
+                                               and self.fspec.get("self_is_tuple_of_self")):
             lhs = lhs[1]
         if lhs[0] == "path" and len(lhs[1]) == 1 and lhs[1][0] in env:
             ln, ty = env[lhs[1][0]]
@@ -1768,6 +1932,8 @@ class FnTr:
         return Val(f"{self.par(b.lean)}.{lean_ident(e[2])}", fty)
 
     def ex_tfield(self, e, env, want):
+        if e[1] == ("path", ["self"]) and e[2] == 0 and self.fspec.get("self_is_tuple_of_self"):
+            return self.ex(e[1], env)
         b = self.ex(e[1], env)
         if not (b.ty and b.ty[0] == "tuple"):
             self.fail("tuple field access on a value of unknown type")
@@ -1890,6 +2056,10 @@ class FnTr:
             return out[0]
         return Val("(" + txt.replace("\n", "\n ") + ")", out[0].ty if out else None)
 
+    def ex_vec(self, e, env, want):
+        vs = [self.ex(x, env) for x in e[1]]
+        return Val("[" + ", ".join(v.lean for v in vs) + "]", T("Vec", vs[0].ty if vs else None))
+
     def ex_closure(self, e, env, want):
         return Val(self.closure(e, [], env), None)
 
@@ -1966,8 +2136,9 @@ class FnTr:
         nd = self.a.spec.get("nondet", {})
         if printed in nd:
             ln, ty = nd[printed]
-            self.ndraw += 1
-            if self.ndraw > 1:
+            self.ndraws = getattr(self, "ndraws", {})
+            self.ndraws[ln] = self.ndraws.get(ln, 0) + 1
+            if self.ndraws[ln] > 1:
                 self.fail(f"more than one draw of `{printed}` in one function (one `{ln}` parameter per call)")
             return Val(ln, self.tyspec(ty))
         # sibling method on self
@@ -1987,6 +2158,8 @@ class FnTr:
         r = self.ex(recv, env)
         rn = ty_name(r.ty)
         R = self.par(r.lean)
+        if rn in self.ATOMIC_TY and name == "load":
+            return Val(r.lean, T(self.ATOMIC_TY[rn]))
         for sm in self.a.spec.get("methods", []):
             if sm["name"] == name and (sm.get("on") is None or sm["on"] == rn) and len(args) == sm["lean"].count("{") - 1:
                 argv = [self.par(self.ex(x, env).lean) for x in args]
@@ -2185,7 +2358,7 @@ def generate(repo, outdir, json_path=None, targets=None):
                     "theorem": f.get("theorem"), "error": f"translator crash: {type(e).__name__}: {e}"} for f in spec["fns"]]
         for r in rep:
             r["area"] = spec["area"]
-            r["properties"] = spec.get("properties", [])
+            r.setdefault("properties", spec.get("properties", []))
         report += rep
         p = outdir / f"{spec['area']}.lean"
         if not p.exists() or p.read_text() != text:
